@@ -43,6 +43,8 @@ type Plan struct {
 	ErrAt       int  // >= 0: reads touching this offset fail with ErrSimIO
 	Seekable    bool
 	SeekFails   bool // the reader offers Seek, but it fails (a pipe or a socket behind an *os.File)
+	ErrWithData bool // the bytes just before ErrAt are returned together with the error, in one call
+	Grows       int  // > 0 (seekable readers): until the first Read, the source ends this many bytes after Start (a file still being appended to)
 	Start       int  // the reader is positioned here when handed over (bytes before it were consumed by someone else)
 }
 
@@ -59,11 +61,17 @@ func (p Plan) String() string {
 	if p.SeekFails {
 		s += "+seek-fails"
 	}
+	if p.Grows > 0 {
+		s += "+still-growing(" + itoa(p.Grows) + " bytes there at first)"
+	}
 	if p.TruncAt >= 0 {
 		s += "+trunc@" + itoa(p.TruncAt)
 	}
 	if p.ErrAt >= 0 {
 		s += "+err@" + itoa(p.ErrAt)
+		if p.ErrWithData {
+			s += "(with the bytes before it)"
+		}
 	}
 	if p.Start > 0 {
 		s += "+start@" + itoa(p.Start)
@@ -105,7 +113,13 @@ func GenPlan(n int, faults bool) Plan {
 			p.TruncAt = simrt.Choice("io.trunc-at", n+1)
 		case 2:
 			p.ErrAt = simrt.Choice("io.err-at", n+1)
+			p.ErrWithData = simrt.Choice("io.err-with-data", 3) == 1
+			if p.ErrWithData && simrt.Choice("io.err-at-the-end", 4) == 1 {
+				p.ErrAt = n // the connection breaks right behind the last byte, and says so along with it
+			}
 		}
+	} else if p.Seekable && n > 1 && simrt.Choice("io.grows", 6) == 1 {
+		p.Grows = 1 + simrt.Choice("io.grows-from", n-1)
 	}
 	return p
 }
@@ -209,6 +223,11 @@ func (r *Reader) Read(p []byte) (int, error) {
 	}
 	copy(p, r.data[r.off:r.off+n])
 	r.off += n
+	if r.plan.ErrWithData && r.plan.ErrAt >= 0 && r.plan.ErrAt <= end && r.off == r.plan.ErrAt {
+		pIOErr.Hit()
+		pErrWithData.Hit()
+		return n, ErrSimIO
+	}
 	if r.off == end && limit == end && r.plan.EOFWithData {
 		r.SawEOFData = true
 		pEOFWithData.Hit()
@@ -231,6 +250,11 @@ func (r *SeekReader) Seek(offset int64, whence int) (int64, error) {
 		abs = int64(r.off) + offset
 	case io.SeekEnd:
 		abs = int64(r.end()) + offset
+		if g := r.plan.Start + r.plan.Grows; r.plan.Grows > 0 && r.reads == 0 && g < r.end() {
+			// nothing has been read yet: the rest of the data has not arrived
+			pGrowingEnd.Hit()
+			abs = int64(g) + offset
+		}
 	default:
 		return 0, errors.New("simio: invalid whence")
 	}
@@ -338,6 +362,8 @@ func (w *Writer) Write(p []byte) (int, error) {
 
 var (
 	pIOErr       = simrt.NewProbe("fault.io-error")
+	pErrWithData = simrt.NewProbe("fault.io-error-together-with-the-last-bytes")
+	pGrowingEnd  = simrt.NewProbe("io.seek-end-before-the-rest-arrived")
 	pZeroRead    = simrt.NewProbe("io.zero-length-read")
 	pEOFWithData = simrt.NewProbe("io.eof-with-data")
 	pSeek        = simrt.NewProbe("io.seek")
